@@ -450,7 +450,9 @@ OpLed(G, tbl, env, txt, lv, q, rbp, lastInfix, far) ==
     IF post.t = "ill" THEN OpR("ill", None, 0, 0, TRUE)
     ELSE IF post.t = "ok" /\ post.e = q THEN OpR("ill", None, 0, 0, TRUE)
     ELSE IF post.t = "ok" /\ BP(tbl, post.row) > rbp
-    THEN OpLed(G, tbl, env, txt, <<"Q", lv, post.v>>, post.e, rbp, lastInfix, Mx(far, post.far))
+    THEN \* the new left operand is a postfix node: a following operator of the
+         \* non-associative row is no longer "chained" directly onto that row
+         OpLed(G, tbl, env, txt, <<"Q", lv, post.v>>, post.e, rbp, 0, Mx(far, post.far))
     ELSE IF post.t = "ok"
     THEN OpR("ok", lv, q, Mx(far, post.far), FALSE)     \* a looser postfix: an outer level takes it
     ELSE LET inf == OpLongest(G, tbl, RowsOf(tbl, {"left", "right", "infix"}), 1, env, txt, q, NoOp(q), q)
